@@ -694,8 +694,13 @@ def r5(ctx):
         if add:
             # the relative pattern loses a leading `./` before it is anchored
             rsl = backslice(ap, [add[0].args[1]])
-            strips = [c for c in rsl.calls if c.matches(r'Pattern::strip_literal_prefix$|str::<impl str>::(strip_prefix|trim_start_matches)$')]
-            dot = any('"."' in (v or '') or '"./"' in (v or '') for c in strips for v in slice_const_values(lib, backslice(ap, c.args[1:])))
+            strips = [c for c in ap.calls(r'Pattern::strip_literal_prefix$|str::<impl str>::(strip_prefix|trim_start_matches)$')]
+            allv = [v or '' for c in strips for v in slice_const_values(lib, backslice(ap, c.args[1:]))] + [v for v in _all_consts(ap)]
+            dot = any(v in ('"."', '"./"') for v in allv) and bool(strips)
+            dotdot = any(v in ('".."', '"../"') for v in allv) and bool(strips) and bool(ap.calls(r'path::Path::parent$'))
+            ctx.check(dotdot, rule, ap.path + '|parent-dir-prefix', add[0].where(), 'a leading `../` of a relative pattern is resolved against the parent of the base directory',
+                      'a relative pattern that starts with `../` is appended to the base directory as text: `<cwd>/../b/*` matches no scanned path (they are canonical), so `group ../b --path "../b/*"` selects '
+                      'nothing and `--exclude "../b/sub/**"` excludes nothing, although the input path `../b` of the same command is resolved')
             ctx.check(bool(strips) and dot, rule, ap.path + '|current-dir-prefix', add[0].where(), 'a leading `./` of a relative pattern is removed before the base directory is prepended',
                       'a relative pattern is appended to the base directory as it is: `--path "./a/*"` becomes `<cwd>/./a/*`, which matches no scanned path (they have no `.` components), '
                       'and `--exclude "./a/*"` excludes nothing')
